@@ -423,3 +423,36 @@ def solve(constraints, timeout_ms=120000):
     r = s.check()
     dt = time.perf_counter() - t0
     return str(r), (s.model() if str(r) == "sat" else None), dt
+
+
+def solve_cvc5(constraints, timeout_s=300, logic="QF_BVFP"):
+    """second solver for FP queries z3 leaves 'unknown': cvc5 binary on an SMT-LIB2 dump of the same constraints"""
+    import os
+    import shutil
+    import subprocess
+    import tempfile
+    exe = shutil.which("cvc5")
+    if exe is None:
+        return "unknown", 0.0
+    s = z3.Solver()
+    s.add(*constraints)
+    d = tempfile.mkdtemp(prefix="vf-cvc5-")
+    try:
+        p = os.path.join(d, "q.smt2")
+        with open(p, "w") as f:
+            f.write("(set-logic %s)\n%s\n(check-sat)\n" % (logic, s.sexpr()))
+        t0 = time.perf_counter()
+        try:
+            r = subprocess.run([exe, "--tlimit=%d" % (timeout_s * 1000), p], capture_output=True, text=True, timeout=timeout_s + 30)
+            out = (r.stdout + r.stderr).strip().splitlines()
+        except subprocess.TimeoutExpired:
+            out = ["unknown"]
+        dt = time.perf_counter() - t0
+    finally:
+        shutil.rmtree(d, ignore_errors=True)
+    if any("(error" in l for l in out):
+        return "unknown", dt
+    for l in out:
+        if l.strip() in ("sat", "unsat", "unknown"):
+            return l.strip(), dt
+    return "unknown", dt
